@@ -244,7 +244,28 @@ def monitor(ctx, extended=False):
                         sct = G.clone_pump(sct, driver=Driver(name=sct.driver.name, design_power_curve=interpDict(pts_)))
                     secs2.append(sct)
                 pl = Pipeline(name=pl.name, pipe_list=secs2, slurry=pl.slurry)
+            hist_ = []
+            dias_ = [s_.diameter for s_ in pl.pipesections if isinstance(s_, Pipe)]
+            inner_ = sorted({d_ for d_ in dias_ if d_ != dias_[-1]})
+            if inner_ and i % 2 == 0:
+                # the slurry is defined for a pipeline diameter that is not the discharge diameter (the pipeline keeps such a diameter)
+                pl.slurry.Dp = ctx.rng.choice(inner_)
+                pl.update_slurries()
+                hist_.append(f'slurry Dp set to the diameter {pl.slurry.Dp} of a section that is not the last')
+            pumps_ = [s_ for s_ in pl.pipesections if not isinstance(s_, Pipe)]
+            if pumps_ and hasattr(pl.slurry, '_params') and i % 3 != 1 and ctx.rng.random() < 0.6:
+                # the same pump objects are also part of a second pipeline with another slurry, built and evaluated before this one is saved
+                p2_ = dict(pl.slurry._params, Cv=0.03 if pl.slurry.Cv > 0.2 else 0.4, Dp=dias_[-1])
+                other_ = Pipeline(name='reference', pipe_list=[Pipe('Entrance', dias_[-1], 0.0, 0.5, -3.0)] + pumps_ + [Pipe('discharge', dias_[-1], 300.0, 1.0, 1.0)],
+                                  slurry=E.make_slurry(p2_, max_index=100))
+                try:
+                    other_.calc_system_head(G.flows_for(ctx.rng, pl, 1)[0])
+                except Exception:   # noqa
+                    pass
+                hist_.append(f'a second pipeline with another slurry (Cv {p2_["Cv"]}) was built around the same pump objects and evaluated first')
             desc = G.describe(pl)
+            if hist_:
+                desc = dict(desc, history=hist_)
             ctx.count('evaluations')
             try:
                 with warnings.catch_warnings():
